@@ -247,10 +247,54 @@ def r5_shared_insertion(ctx):
     ok = sum(1 for c in A.calls_in(f) if A.call_target(c)[1] == '_add_loop_node') == 2
     yield Ob('x12context:X12ContextReader._add_segment opens child loops through _add_loop_node', ok, ctx.floc(f), '' if ok else 'loop creation changed')
 
+def _identity_compares(tree):
+    out = []
+    for n in ast.walk(tree):
+        if isinstance(n, ast.Compare):
+            left = n.left
+            for op, r in zip(n.ops, n.comparators):
+                if isinstance(op, (ast.Is, ast.IsNot)):
+                    if not any(isinstance(x, ast.Constant) and (x.value is None or isinstance(x.value, bool)) for x in (left, r)):
+                        out.append(n)
+                left = r
+    return out
+
+
+def r6_no_identity_of_map_nodes(ctx):
+    """the context reader swaps the map object in the middle of a transaction set (278: BHT02 selects another map):
+    nodes of the old and the new map with the same path are the same position.  Map and data nodes are therefore
+    compared by id / path, never by object identity - an `is` test between them fails after the switch and aborts
+    the iteration.  (Expected count on the reference tree: zero; the matcher is exercised on a built-in example.)"""
+    probe = ast.parse('if cur.x12_map_node is not x12_loop:\n    raise E()\nif a is None or b is not True:\n    pass')
+    if len(_identity_compares(probe)) != 1:
+        raise AnalysisError('identity-comparison matcher does not recognise its own example')
+    m = ctx.mod('x12context')
+    hits = _identity_compares(m.tree)
+    for n in hits:
+        fn = A.enclosing_function(n)
+        yield Ob('x12context:%s compares objects by identity: %s' % (fn.name if fn else '?', norm(n)), False, ctx.loc(m, n),
+                 'after the map is re-loaded at a BHT the same position is a different object: this test then fails for a conformant document')
+    yield Ob('x12context: nodes are compared by id/path, not by identity', not hits, m.relpath, '' if not hits else '%d identity comparison(s)' % len(hits),
+             note='matcher checked on a built-in example')
+    # the consistency test of the loop pops is on ids
+    fn = ctx.func('x12context', 'X12ContextReader._add_segment')
+    raises = [r for r in ast.walk(fn) if isinstance(r, ast.Raise)]
+    for r in raises:
+        ifn = A.enclosing(r, (ast.If,))
+        if ifn is None or 'Loop pop' not in ast.unparse(r):
+            continue
+        t = ifn.test
+        ok = isinstance(t, ast.Compare) and len(t.ops) == 1 and isinstance(t.ops[0], ast.NotEq) \
+            and norm(t.left).endswith('.id') and norm(t.comparators[0]).endswith('.id')
+        yield Ob('x12context:X12ContextReader._add_segment loop-pop consistency test compares loop ids', ok, ctx.floc(fn, ifn),
+                 '' if ok else 'the test is `%s`: anything stricter than equal ids rejects the same loop of a re-loaded map' % norm(t))
+
+
 RULES = [
     Rule('C09.R1', 'the tree under construction is yielded on every path to the end of the generator', r1_flush, floor=1),
     Rule('C09.R2', 'each source segment is placed in the tree or yielded exactly once per iteration', r2_one_disposition, floor=3),
     Rule('C09.R3', 'every node created in iter_segments gets seg_count and cur_line_number from the right getters', r3_position_fields, floor=6),
     Rule('C09.R4', 'every self.method() in x12context resolves; _add_segment attaches to the computed loop, pops before pushes', r4_resolution_and_attachment, floor=18),
     Rule('C09.R5', 'shared with C10.R5: child loops are placed by map position after existing siblings', r5_shared_insertion, floor=6),
+    Rule('C09.R6', 'nodes are compared by id/path, never by identity (the map object is replaced at a 278 BHT)', r6_no_identity_of_map_nodes, floor=1),
 ]
